@@ -104,6 +104,28 @@ def run_one(args):
                         r = ch.queue.declare(op[2])
                         if r.get('queue') != op[2]:
                             out['wrong'].append(('declare', op[2], r))
+                    elif kind == 'recycle':
+                        # the application closes the channel (a returned message may still be parked on it) and opens it again:
+                        # both are synchronous calls the broker answers at once
+                        try:
+                            ch.close()
+                        except amqpstorm.AMQPError as why:
+                            out['wrong'].append(('close-raised', repr(why)[:80]))
+                        ch.open()
+                        if sc['roles'][op[1]] == 'consume':
+                            ch.queue.declare('cq%d' % op[1])
+                    elif kind == 'bclose-reopen':
+                        # the broker closes the channel (404); the application opens the same object again and goes on without
+                        # publisher confirms: a plain publish returns at once
+                        broker.close_channel(ch.channel_id, 404, 'NOT_FOUND - gone')
+                        for _ in range(3000):
+                            if ch.is_closed:
+                                break
+                            amqpstorm.channel.time.sleep(0.001)
+                        ch.open()
+                        r = ch.basic.publish(b'after-reopen', 'confirm-q')
+                        if r is not None:
+                            out['wrong'].append(('publish-after-reopen', r))
                     elif kind == 'churn':
                         extra = conn.channel(rpc_timeout=60)
                         r = extra.queue.declare(op[2])
@@ -177,6 +199,8 @@ def run_one(args):
         ctx.quiesce()
         for i, ch in enumerate(chans):
             parked = sum(1 for e in ch.exceptions if isinstance(e, amqpstorm.AMQPMessageError))
+            if sc.get('lifecycle'):
+                continue        # closing a channel discards what was parked on it
             if injected.get(i, 0) != raised.get(i, 0) + parked:
                 out['wrong'].append(('returned-error-lost' if injected.get(i, 0) > raised.get(i, 0) + parked else 'returned-error-duplicated',
                                      i, injected.get(i, 0), raised.get(i, 0), parked))
@@ -415,6 +439,17 @@ def check(rep):
         threads = [[('churn', 0, 'churn-%d-%d' % (t, k)) if rng.random() < 0.8 else ('declare', 0, 'q-%d-%d' % (t, k))
                     for k in range(rng.randint(2, 4))] for t in range(rng.randint(2, 3))]
         jobs.append(({'roles': ['rpc'], 'threads': threads, 'frame_max': 4096, 'get_split': None}, rng.randrange(1 << 30), None, i % 2 == 0))
+    # a channel is closed and opened again between calls (by the application with a returned message parked on it, or by the
+    # broker while it was in confirm mode); another thread keeps working on a second channel.  Monitor only.
+    for i in range(30 if not thorough else 500):
+        if i % 2 == 0:
+            t0 = [('return', 0, rng.choice([0, 7, 300])), ('recycle', 0), ('declare', 0, 'after-recycle-%d' % i)]
+            roles = ['rpc', 'rpc']
+        else:
+            t0 = [('cpublish', 0, 'ack', 3), ('bclose-reopen', 0), ('declare', 0, 'after-reopen-%d' % i)]
+            roles = ['confirm', 'rpc']
+        t1 = [('declare', 1, 'other-%d-%d' % (i, k)) for k in range(rng.randint(1, 3))]
+        jobs.append(({'roles': roles, 'threads': [t0, t1], 'frame_max': 4096, 'get_split': None, 'lifecycle': True}, rng.randrange(1 << 30), None, False))
     results = par.pmap(run_one, jobs)
     lines, expect, owner = [], [], []
     for idx, ((sc, seed, _, atomic), r) in enumerate(zip(jobs, results)):
